@@ -95,8 +95,8 @@ func scenarios(tier string) []engine.Scenario {
 	unis := []universe{
 		{16, false, nil},
 		{64, false, []string{"ratios", "mixed", "big61"}}, // 8 blocks of 8 lanes, NTT stage loops
-		{16, true, []string{"mid30", "mixed"}},                    // conjugate-invariant ring
-		{32, true, []string{"ratios", "big61"}},                   // conjugate-invariant ring, odd log N
+		{16, true, []string{"mid30", "mixed"}},            // conjugate-invariant ring
+		{32, true, []string{"ratios", "big61"}},           // conjugate-invariant ring, odd log N
 	}
 	if thorough {
 		unis = []universe{{16, false, nil}, {32, false, nil}, {64, false, nil}, {16, true, nil}, {32, true, nil}, {64, true, []string{"ratios", "mixed", "tiny"}}}
